@@ -1,4 +1,17 @@
 ID = 'C14'
+# Units fsq* (file / directory / tree harnesses): the "P encoding" of engine/README.md - -fno-inline so that std::string::_M_create stays
+# a function and can be cut into a reported bound (sso_bound.c: every std::string <= 15 bytes), pool allocator, --ptrdiff/--flat-unions,
+# engine/shim unordered_set - plus msg_cut.c: functions that only build exception what() TEXT return the empty string / do nothing
+# (NOTES.md "Stubs"). fsq192: 192-byte operator-new blocks (shim set of 4 strings = 160 bytes). fsqs (list_directory_sorted only):
+# additionally std::sort and vector growth are models (sort_small.c, vec_reserve.c).
+MSG_CUTS = ['basic_stringIcSt11char_traitsIcESaIcEE9_M_createERmm$',
+            r'^_ZN5phosg13string_printfB5cxx11EPKcz$', r'^_ZN5phosg16string_for_errorB5cxx11Ei$',
+            r'^_ZStplIcSt11char_traitsIcESaIcEENSt7__cxx1112basic_stringIT_T0_T1_EEPKS5_RKS8_$',
+            r'^_ZStplIcSt11char_traitsIcESaIcEENSt7__cxx1112basic_stringIT_T0_T1_EEOS8_PKS5_$',
+            r'^_ZStplIcSt11char_traitsIcESaIcEENSt7__cxx1112basic_stringIT_T0_T1_EEOS8_S9_$',
+            r'^_ZN5phosg16cannot_stat_fileC1Ei$', r'^_ZN5phosg16cannot_stat_fileC1ERKNSt7__cxx1112basic_string', r'^_ZN5phosg16cannot_open_fileC1ERKNSt7__cxx1112basic_string']
+FSQ = dict(wrap='wrap.cc', shim=True, cxxflags=['-fno-inline'], ir2c_flags=['--ptrdiff', '--flat-unions'], gen_defs=['VERIF_NEW_POOL=8'],
+           extra_c=['sso_bound.c', 'msg_cut.c'], cuts=MSG_CUTS)
 UNITS = {'fs': dict(wrap='wrap.cc', new_block=64),
          # read_all: the internal block size `static const ssize_t read_size = 16 * 1024;` is not a macro; with the real value
          # no query returns (measured, see NOTES.md). The unit is built from a copy of Filesystem.cc in which that one
@@ -14,34 +27,65 @@ UNITS = {'fs': dict(wrap='wrap.cc', new_block=64),
          'fsfb8': dict(wrap='wrap.cc', shim=True, new_block=64, cxxflags=['-DVERIF_FGETS_BLOCK=8'],
                        cuts=[r'^_ZN5phosg8io_errorC1EiRKNSt7__cxx1112basic_string'],
                        src_subst={'Filesystem.cc': [(r'0x100', 'VERIF_FGETS_BLOCK', [1, 2]), (r'0xFF', '(VERIF_FGETS_BLOCK - 1)', [0, 1])]}),
-         'fsx': dict(wrap='wrap.cc', new_block=64, cuts=[r'^_ZN5phosg16cannot_open_fileC1ERKNSt7__cxx1112basic_string'])}
+         'fsx': dict(wrap='wrap.cc', new_block=64, cuts=[r'^_ZN5phosg16cannot_open_fileC1ERKNSt7__cxx1112basic_string']),
+         'fsq': dict(FSQ, new_block=64),
+         'fsq192': dict(FSQ, new_block=192),
+         'fsqs': dict(FSQ, new_block=192, gen_defs=['VERIF_NEW_POOL=8', 'VERIF_VEC_CAP=8'], extra_c=FSQ['extra_c'] + ['vec_reserve.c', 'sort_small.c'],
+                      cuts=MSG_CUTS + [r'^_ZSt4sortIN9__gnu_cxx17__normal_iteratorIPNSt7__cxx1112basic_string',
+                                       '^_ZNKSt6vectorINSt7__cxx1112basic_stringIcSt11char_traitsIcESaIcEEESaIS5_EE12_M_check_lenEmPKc$',
+                                       '^_ZNSt12_Vector_baseINSt7__cxx1112basic_stringIcSt11char_traitsIcESaIcEEESaIS5_EE1[13]_M_(de)?allocateE']),
+         }
 BOUNDS = ('read_all(fd)/read_all(FILE*): internal block size 4 (source: 16384, replaced by src_subst), source length 0..7 bytes for read_all(fd) (quick 0,2,5) and 0..9 for read_all(FILE*) (quick 0,3,4,5,8), '
           'symbolic contents, every chunking in which each read() returns 1..min(requested, remaining) bytes, read fault at any call; '
           'phosg::fgets: internal block size 8 (source: 256, replaced by src_subst), line lengths {0,1,5,6,7,8,9,13,14} with/without newline, '
           'symbolic line bytes (no NUL), ::fgets failure at call 0/1 in dedicated cells; readx/writex/preadx/pwritex/freadx/fwritex/read/fread: '
           'requested size 0..4, OS count any value in [-1,size]; basename/dirname: every path of 0..5 bytes; Poll: every history of <= 4 (quick 3) '
-          'add/remove over fds {3,4,5} with symbolic 16-bit masks; scoped_fd: every sequence of <= 4 (quick 3) operations of 10 kinds over 2 objects')
+          'add/remove over fds {3,4,5} with symbolic 16-bit masks; scoped_fd: every sequence of <= 4 (quick 3) operations of 10 kinds over 2 objects (descriptors from 10; one cell with 2 operations and descriptors from 0); '
+          'load_file/save_file: data of 0..3 and 7 symbolic bytes (quick 0, 2), pointer and std::string forms, one file that may pre-exist with 2 old bytes, every combination of failing open/fstat, '
+          'write count in [-1,n], read count in [-1,available] over <= 2 write/read calls, st_size off by -2..+2 in dedicated cells (there is no internal block size: one read/write call); '
+          'isfile/isdir/lisfile/lisdir/islink/stat/lstat/fstat: all 2^32 st_mode values for the node and for the link target; '
+          'list_directory / list_directory_sorted: 0..3 entries with symbolic distinct names of 1..2 bytes (1..3 bytes for 1-2 entries) plus "." and ".." at every position; '
+          'unlink: root + <= 2 entries + <= 1 sub-entry, 78 concrete (tree shape, entry order, failing call, path type, recursive flag) configurations (quick 5) over node types file/dir/link->file/link->dir/dangling link, names a/b/c, path itself of every type, recursive and non-recursive')
 STUBS = ['read/write/pread/pwrite: return a solver-chosen count (reads deliver that many bytes of a symbolic source), -1 = failure',
          'fread/fwrite: C contract (h_rw: any count in [0,size]; h_readall_file: full count unless end of data)',
          'fgets/feof/fileno: C contract over a symbolic byte stream (stops after newline or size-1 bytes, NUL-terminates, NULL+EOF flag at end of data, NULL without EOF flag on failure)',
          'open/close: open hands out fresh descriptors or fails; close records its argument',
          'vasprintf -> constant text "E", strerror_r -> no-op (generated C): exception message TEXT is not part of any claim',
          'cut to no-ops in generated C (what() text formatting only): io_error(int) [read_all units], io_error(int, const string&) [fgets unit], cannot_open_file(const string&) [scoped_fd unit]',
-         'engine/shim/deque (capacity 8) for the block list of phosg::fgets']
+         'engine/shim/deque (capacity 8) for the block list of phosg::fgets',
+         'h_file.c one-file file system: open (O_CREAT creates, O_TRUNC empties, missing file without O_CREAT or solver choice => -1/errno), write (solver-chosen count in [-1,n] stored at the offset), fstat (S_IFREG, st_size = length + DELTA, or -1), read (solver-chosen count in [-1, min(n, bytes left)], tail of the buffer untouched), close (marks closed, result solver-chosen); errno symbolic on entry, written only by failing calls',
+         'h_ftype.c: stat/lstat/fstat fill st_mode/st_size from symbolic values or fail',
+         'h_lsdir.c: opendir (NULL/errno by solver choice), readdir (one static struct dirent overwritten per call, symbolic bytes after the terminating NUL, NULL at the end and afterwards), closedir; readdir never fails',
+         'h_rmtree.c tree model: stat follows a final link / lstat does not, opendir follows links and lists ".", "..", live entries; unlink(2): ENOENT missing, EISDIR directory, never follows; rmdir(2): ENOENT, ENOTDIR for non-directories and links, non-empty directory = model assertion (+ENOTEMPTY); injected failure = EACCES without effect; path resolution through directories and links to directories',
+         'units fsq/fsq192/fsqs (msg_cut.c): string_printf, string_for_error and the three std::operator+ instantiations that occur only in exception-message concatenations return the empty string; constructors cannot_stat_file(int/string), cannot_open_file(string) are no-ops: what() text is never part of a claim. std::string::_M_create cut (sso_bound.c): every std::string <= 15 bytes or a reported bound failure. operator new = deterministic pool allocator (VERIF_NEW_POOL)',
+         'engine/shim/unordered_set (capacity 4, insertion-order iteration) for the result of list_directory',
+         'unit fsqs only (list_directory_sorted): std::sort(vector<string>::iterator) replaced by an insertion-sort MODEL by std::string operator< for <= 5 small strings (sort_small.c) and vector growth by the reserve-ahead model vec_reserve.c (copied from props/C08); with the real libstdc++ introsort no verdict in 15 min even for the empty directory']
 OUTSIDE = ['the real block sizes 16384 / 256: no query returns with them (NOTES.md has the measurements); block-boundary logic is decided for block sizes 4 / 8 substituted into a copy of Filesystem.cc',
-           'load_file/save_file (one read/write on a regular file: the property there is the kernel\'s), list_directory, recursive unlink, real pipes and writer timing',
+           'real pipes and writer timing; real kernel file systems (load_file/save_file/list_directory/unlink are decided against the contract stubs listed above)',
+           'load_file on a file whose real length exceeds st_size (it grew after fstat, or st_size is not meaningful: /proc, /sys, FIFOs report 0): phosg returns exactly the first st_size bytes; the cells file_load_deltam* only exclude garbage/padding, the property text does not say whether prefix or exception is right',
+           'readdir() failing in the middle of a directory (NULL with errno set): phosg cannot tell it from the end of the directory (errno is not cleared/inspected) and returns the names read so far - observation, the readdir stub never fails; same for a failing closedir/close (results ignored by phosg)',
+           'save_file: mode bits of the created file (variadic third argument of open), fsync/close errors',
+           'recursive unlink: trees deeper than 2 levels or wider than 2 entries, symbolic entry names (one file with a symbolic 1-byte name: no verdict in 360 s; symbolic names are covered for list_directory), symbolic node types / entry order / fault position (each is a concrete cell: a symbolic choice stops constant folding, empty tree no verdict in 18 min), failures of stat itself, ENOENT races (another process deleting entries concurrently)',
+           'the real libstdc++ std::sort and std::unordered_set code (model / shim), exception message texts',
            'stream errors reported through ferror() for the fread-based helpers (fread returns a short count at EOF and on error alike; phosg does not call ferror)',
            'lines containing NUL bytes (phosg::fgets measures blocks with strlen)',
            'interrupted system calls: read() == -1/EINTR is treated as any other failure (io_error)']
 ASSUMPTIONS = ['read_all and phosg::fgets behave uniformly in their block-size constant: the only source change in units fsrs4/fsrs4b/fsfb8 is that constant (16 * 1024 -> 4, 0x100/0xFF -> 8/7), applied to both the solver build and the native real build',
                'libc obeys the POSIX/C contracts encoded in the stubs',
-               'CBMC flag --max-field-sensitivity-array-size 0 (performance only)']
+               'CBMC flag --max-field-sensitivity-array-size 0 / 512 (performance only)',
+               'x86-64 glibc layout of struct stat (st_mode at offset 24, st_size at 48, 144 bytes) and struct dirent (d_name at offset 19) in the stubs; the native real build uses the same stubs, so a wrong offset shows up as a translation-validation/replay failure of the stat-based oracles',
+               'units fsq*: no std::string longer than 15 bytes occurs (reported bound otherwise); pool allocator: use-after-delete not detected by CBMC (ASan checks the native runs)']
 
 # heap blocks are byte arrays of exactly new_block (64) elements = CBMC's default field-sensitivity limit; with symbolic
 # offsets into them per-element SSA symbols explode (measured: Poll 2 ops 65M variables / 38 GB vs 0.6M / 0.3 GB with 0)
 FS0 = ['--max-field-sensitivity-array-size', '0']
+# the file / directory / tree harnesses keep paths, shapes and most heap content concrete: arrays up to 512 elements are split into
+# cells so that those values constant-fold during symbolic execution (with 0: nothing folds, rmtree on the EMPTY directory no verdict in 18 min vs 0.3 s)
+FS512 = ['--max-field-sensitivity-array-size', '512']
 
 RW = ['readx', 'readx_str', 'writex', 'writex_str', 'preadx', 'preadx_str', 'pwritex', 'freadx', 'freadx_str', 'fwritex', 'read', 'fread']
+
+USET_IT = '_ZNSt13unordered_setINSt7__cxx1112basic_stringIcSt11char_traitsIcESaIcEEEvvvE8iteratorppEv.0:5'  # shim iterator++: at most VERIF_USET_CAP + 1 steps
 
 def queries(tier):
     qs = []
@@ -83,4 +127,60 @@ def queries(tier):
                        unwindset='%s:%d' % (JOIN, L // (FB - 1) + 4),
                        desc='phosg::fgets (block size 8), line of %d bytes, the %d-th ::fgets call fails without EOF: io_error, no partial line' % (L, fa),
                        bounds='line length == %d, block size 8' % L))
+    quick = tier == 'quick'
+    # ---- load_file / save_file over the one-file file system of h_file.c (all stub failures / short counts symbolic per query)
+    cells = [(2, 1, 40), (0, 0, 0)] if quick else [(L, a, 40) for L in (0, 1, 2, 3, 7) for a in (0, 1)] + [(0, 0, 0), (2, 1, 0)]
+    for L, a, fd0 in cells:
+        qs.append(dict(name='file_rt_len%d_%s%s' % (L, 'str' if a else 'ptr', '' if fd0 else '_fd0'), unit='fsq', harness='h_file.c', defs={'LEN': L, 'AS_STR': a, 'SAVE_FAULTS': 1, 'LOAD_FAULTS': 1, 'FD0': fd0},
+                       unwind=12, timeout=600, mem_gb=4, flags=FS512,
+                       desc='save_file(%s form) of %d symbolic bytes then load_file over a one-file file system: open/write/fstat/read/close stubs with solver-chosen failures, short writes and short reads; file may pre-exist with 2 old bytes; descriptors start at %d: result == data or the documented exception, never truncated/padded, descriptor closed exactly once' % ('std::string' if a else 'pointer', L, fd0),
+                       bounds='data length == %d; <= 2 write and <= 2 read calls per descriptor; old file length 2' % L))
+    for dl in ((-1, 1) if quick else (-2, -1, 1, 2)):
+        qs.append(dict(name='file_load_delta%s%d' % ('m' if dl < 0 else 'p', abs(dl)), unit='fsq', harness='h_file.c', defs={'LEN': 0, 'LOAD_ONLY': 1, 'OLDLEN': 2, 'DELTA': dl, 'LOAD_FAULTS': 1},
+                       unwind=12, timeout=600, mem_gb=4, flags=FS512,
+                       desc='load_file when fstat reports st_size = real length %+d (file changed between fstat and read): %s' % (dl, 'the file is shorter than fstat said => exception, never a padded string' if dl > 0 else 'the file is longer => exactly the first st_size bytes or an exception, never garbage'),
+                       bounds='file length 2 (or missing), st_size off by %+d, symbolic read/open/fstat failures' % dl))
+    # ---- stat helpers
+    qs.append(dict(name='ftype_all', unit='fsq', harness='h_ftype.c', defs={}, unwind=12, timeout=300, mem_gb=3, flags=FS512,
+                   desc='isfile/isdir/lisfile/lisdir/islink(path), stat/lstat/fstat and the struct-stat predicates against stat/lstat/fstat stubs with fully symbolic st_mode (own and link-resolved), st_size and failures; helper chosen by the solver',
+                   bounds='one call; all 2^32 st_mode values for the node itself and for the link target'))
+    # ---- list_directory / list_directory_sorted
+    cells = [(2, 0, 2, 0), (1, 0, 3, 0), (1, 1, 2, 0)] if quick else ([(N, srt, 2, 0) for srt in (0, 1) for N in range(0, 4)] + [(1, 0, 3, 0), (2, 0, 3, 0), (1, 1, 3, 0), (2, 0, 2, 1), (2, 1, 2, 1)])
+    for N, srt, nmax, nodots in cells:
+        d = {'N': N, 'NMAX': nmax}
+        if srt: d['SORTED'] = 1
+        if nodots: d['NODOTS'] = 1
+        qs.append(dict(name='lsdir_%s_n%d%s%s' % ('sorted' if srt else 'set', N, '_nmax3' if nmax == 3 else '', '_nodots' if nodots else ''), unit='fsqs' if srt else 'fsq192', harness='h_lsdir.c', defs=d,
+                       unwind=6, unwindset=USET_IT + ',verif_str_less.0:16', timeout=1200, mem_gb=8, flags=FS0 if srt else FS512,  # measured: sorted n3 168 s with FS0, 269 s with FS512; set n3 48 s / 26 s
+                       desc='%s over an opendir/readdir/closedir stub directory with %d entries of symbolic 1..%d-byte names%s: result == exactly the names present, closedir exactly once, opendir failure => cannot_open_file' % ('list_directory_sorted' if srt else 'list_directory', N, nmax, '' if nodots else ' plus "." and ".." at solver-chosen positions'),
+                       bounds='%d entries, names 1..%d bytes (no NUL, no "/"), distinct' % (N, nmax)))
+    # ---- unlink (recursive / non-recursive) over the tree model of h_rmtree.c; every cell is one concrete tree shape
+    def rm(name, defs, what):
+        d = dict(defs)
+        qs.append(dict(name=name, unit='fsq192', harness='h_rmtree.c', defs=d, unwind=8, unwindset=USET_IT, timeout=300, mem_gb=6, flags=FS512,
+                       desc='unlink over the tree model (stat/lstat/opendir/readdir/closedir/unlink/rmdir stubs): ' + what,
+                       bounds='root + <= 2 entries + <= 1 sub-entry; node types, entry order and failing call concrete per query; names a/b/c'))
+    TN = {0: 'absent', 1: 'file', 2: 'dir', 3: 'link->file', 4: 'link->dir', 5: 'dangling link'}
+    def ncalls(t1, t2, t3):
+        return 1 + sum(1 for t in (t1, t2, t3) if t) + 1 + sum(1 for t in (t1, t2, t3) if t == 2)
+    if quick:
+        shapes = [((2, 1, 5), 0, [-1, 2]), ((4, 1, 0), 0, [-1])]
+    else:
+        shapes = [((0, 0, 0), 0, None), ((1, 0, 0), 0, None), ((3, 0, 0), 0, [-1]), ((5, 0, 0), 0, [-1]), ((2, 0, 0), 0, None), ((1, 1, 0), 0, [-1]), ((3, 5, 0), 0, None), ((3, 5, 0), 1, [-1, 1]),
+                  ((2, 0, 1), 0, None), ((2, 1, 5), 0, None), ((2, 1, 5), 1, None), ((2, 2, 2), 0, [-1, 2, 3]), ((2, 2, 2), 1, [-1]), ((2, 3, 3), 0, [-1]), ((2, 5, 1), 1, [-1]),
+                  ((4, 0, 0), 0, [-1, 1]), ((4, 1, 0), 0, [-1]), ((4, 1, 0), 1, [-1]), ((4, 4, 0), 0, [-1]), ((2, 0, 4), 0, [-1, 2]), ((2, 4, 4), 1, [-1])]
+    for (t1, t2, t3), order, faults in shapes:
+        for fa in (faults if faults is not None else range(-1, ncalls(t1, t2, t3))):
+            rm('rmtree_%d%d%d%s_f%s' % (t1, t2, t3, '_rev' if order else '', fa if fa >= 0 else 'n'), {'T1': t1, 'T2': t2, 'T3': t3, 'ORDER': order, 'FAULT_AT': fa},
+               'recursive unlink of r = {a: %s, b: %s, a/c: %s}%s, %s: whole tree removed exactly once, children before parents, files by unlink(2) and directories by rmdir(2), nothing outside the tree touched; a failing call => exception' % (
+                   TN[t1], TN[t2], TN[t3], ' (entries listed b, a)' if order else '', 'no call fails' if fa < 0 else 'call #%d among opendir/unlink/rmdir fails' % fa))
+    for rt in ([4] if quick else [0, 1, 3, 4, 5]):
+        for fa in ((-1,) if quick else (-1, 0)):
+            rm('rmtree_root%d_rec_f%s' % (rt, fa if fa >= 0 else 'n'), {'ROOT_T': rt, 'FAULT_AT': fa}, 'recursive unlink of a path that is %s (%s)' % (TN[rt], 'no call fails' if fa < 0 else 'the first call fails'))
+    for rt in ([2] if quick else [0, 1, 2, 3, 4, 5]):
+        for fa in ((-1,) if quick else (-1, 0)):
+            rm('rmtree_root%d_nonrec_f%s' % (rt, fa if fa >= 0 else 'n'), {'ROOT_T': rt, 'FAULT_AT': fa, 'RECURSIVE': 0}, 'non-recursive unlink of a path that is %s (%s): one unlink(2); a directory stays and runtime_error is thrown, a missing path is not an error' % (TN[rt], 'no call fails' if fa < 0 else 'the call fails'))
+    # scoped_fd owning descriptor 0 (the lowest descriptor a process can get)
+    qs.append(dict(name='sfd_fd0_ops2', unit='fsx', harness='h_sfd.c', defs={'NOPS': 2, 'FD0': 0}, unwind=40, timeout=900, mem_gb=3, flags=FS0,
+                   desc='scoped_fd: every sequence of 2 operations with descriptors numbered from 0 (descriptor 0 is owned and must be closed like any other)', bounds='2 operations, 2 objects, descriptors 0..2'))
     return qs
